@@ -30,6 +30,11 @@ Inductive case :=
    instanceof RangeError and Error, prototype, constructor, [[Class]] all right;
    message non-empty; String(e) = name: message = Error()] (zeros when nothing is thrown) *)
 | CArg (fn : Z) (a : argval) (obs : list Z)
+(* `l in r` / `l instanceof r` with operands whose conversion methods log and
+   throw: observed outcome (0 false, 1 true, 6 a well-formed TypeError of the
+   interpreter that also comes back from Run as "TypeError: ...", 90 the
+   operand's own exception, 8 anything else) and the log of conversions *)
+| COrder (op : Z) (l : lop) (r : rop) (obs : Z * list Z)
 (* file.FileSet.Position over several files *)
 | CFileSet (landed : Z) (files : list (list Z)) (idx : Z) (obs : option (Z * Z * Z)).
 
@@ -159,6 +164,8 @@ Definition arg_expect (throws msg : bool) : list Z :=
 
 Definition verdict (c : case) : Z * Z :=
   match c with
+  | COrder op l r obs =>
+      judge (fun a b => (fst a =? fst b) && zlist_eqb (snd a) (snd b)) obs (model_order op l r) (spec_order op l r) 0
   | CArg fn a obs =>
       match spec_throws fn a with
       | None => declined
